@@ -603,6 +603,11 @@ class SeedCoherenceAnalyzer(object):
             e_s += "spectral estimation method must be welch"
             raise ValueError(e_s)
 
+        # The sampling rate is used by every spectral estimate of this
+        # analyzer: set it here (as SparseCoherenceAnalyzer does), not as a
+        # side effect of reading `frequencies`
+        self.method['Fs'] = self.method.get('Fs', self.seed.sampling_rate)
+
         #Additional parameters for the coherency estimation:
         self.lb = lb
         self.ub = ub
